@@ -64,15 +64,47 @@ def check_c19(core, rng, n):
         tvs = []
         ntr = 0
         for step in range(rng.randrange(3, 9)):
-            for _ in range(rng.randrange(0, 7)):
-                bid = rng.random() < 0.5
-                vol = rng.randrange(1, 30)
-                price = (40 + rng.randrange(0, 12)) * tick
-                if numpy_env:
-                    env.submit_limit_orders((np.array([bid]), np.array([vol], dtype=np.uint32), np.array([rng.randrange(5)], dtype=np.uint32), np.array([price], dtype=np.uint32)))
+            # a step carries new limit orders, cancellations of earlier orders, (StepEnv) modifications - or only cancellations, or nothing at all
+            kind = rng.choice(['mixed', 'mixed', 'mixed', 'cancels_only', 'empty', 'instructions'])
+            n_known = len(env.get_orders())
+            if kind in ('mixed', 'instructions'):
+                batch = []
+                for _ in range(rng.randrange(0, 7)):
+                    bid = rng.random() < 0.5
+                    vol = rng.randrange(1, 30)
+                    price = (40 + rng.randrange(0, 12)) * tick
+                    batch.append((bid, vol, rng.randrange(5), price))
+                    calls.append(('limit', bid, vol, price))
+                if numpy_env and kind == 'instructions' and (batch or n_known):
+                    acts = [(1, b, v, t, p, 0) for (b, v, t, p) in batch]
+                    for _ in range(rng.randrange(0, 3)):
+                        if n_known:
+                            oid = rng.randrange(n_known)
+                            acts.append((2, False, 0, 0, 0, oid)); calls.append(('cancel', oid))
+                    acts.append((0, False, 0, 0, 0, 0))
+                    rng.shuffle(acts)
+                    env.submit_instructions((np.array([a[0] for a in acts], dtype=np.uint32), np.array([a[1] for a in acts]), np.array([a[2] for a in acts], dtype=np.uint32),
+                                             np.array([a[3] for a in acts], dtype=np.uint32), np.array([a[4] for a in acts], dtype=np.uint32), np.array([a[5] for a in acts], dtype=np.uint64)))
                 else:
-                    env.place_order(bid, vol, rng.randrange(5), price)
-                calls.append(('limit', bid, vol, price))
+                    for (bid, vol, tr, price) in batch:
+                        if numpy_env:
+                            env.submit_limit_orders((np.array([bid]), np.array([vol], dtype=np.uint32), np.array([tr], dtype=np.uint32), np.array([price], dtype=np.uint32)))
+                        else:
+                            env.place_order(bid, vol, tr, price)
+            if kind in ('mixed', 'cancels_only') and n_known:
+                ids = [rng.randrange(n_known) for _ in range(rng.randrange(1, 4))] if (kind == 'cancels_only' or rng.random() < 0.5) else []
+                for oid in ids:
+                    calls.append(('cancel', oid))
+                if ids and numpy_env:
+                    env.submit_cancellations(np.array(ids, dtype=np.uint64))
+                else:
+                    for oid in ids:
+                        env.cancel_order(oid)
+            if kind == 'mixed' and n_known and not numpy_env and rng.random() < 0.4:
+                oid = rng.randrange(n_known)
+                np_, nv = rng.choice([None, (40 + rng.randrange(0, 12)) * tick]), rng.choice([None, rng.randrange(1, 30)])
+                calls.append(('modify', oid, np_, nv))
+                env.modify_order(oid, np_, nv)
             env.step()
             calls.append(('step',))
             orders = env.get_orders()
